@@ -230,6 +230,10 @@ ROUND5 = {
     'C18': 'Fifth round: arrays of whole compression blocks (VTK last-block convention), world without a mantle layer under the filter options.',
 }
 
+ROUND6 = {
+    'C10': 'Sixth round: velocity kind in suite noop (one section carries uniform raw, the others add the zero vector).',
+}
+
 def main():
     props = [json.loads(l) for l in open(f'{V}/properties.jsonl')]
     hooks_commits = []
@@ -248,6 +252,7 @@ def main():
             if i in ROUND3: text = text + ' ' + ROUND3[i]
             if i in ROUND4: text = text + ' ' + ROUND4[i]
             if i in ROUND5: text = text + ' ' + ROUND5[i]
+            if i in ROUND6: text = text + ' ' + ROUND6[i]
             c = {
                 'property_id': i,
                 'quick_cmd': f'./check {i} --tier quick',
